@@ -58,6 +58,7 @@ type uciSim struct {
 	frugal     bool // the running search cannot end by itself: do not burn evaluations on it
 	onRelease  func(tk *Task)
 	drainedAt  int            // last step at which the output was read until empty
+	drainBase  int            // drainedAt as it was when the sync in progress began
 	loopMark   int            // work counter when the command loop was last seen at a park point or in its select
 	roleW      map[string]int // scheduling bias of this run: a starved role is picked rarely ("slow task" fault)
 	delivered  []string
@@ -87,12 +88,24 @@ func (s *uciSim) now() time.Duration { return time.Since(s.start) }
 
 // sync waits for quiescence, then refreshes the controller's view and consumes output.
 func (s *uciSim) sync() {
+	// Every line read during this sync was decided after the last complete drain of an EARLIER sync: a
+	// writer that was blocked on the full buffer decided its line before this drain began, so the window
+	// of all lines read now starts at the previous drain, not at the one in progress.
+	s.drainBase = s.drainedAt
+	drained := false
 	for {
 		s.k.Wait()
 		// consuming output may unblock a writer: wait again until nothing moves
-		if n := s.consume(); n == 0 {
+		n := s.consume()
+		if s.stall == 0 && !s.outClosed {
+			drained = true
+		}
+		if n == 0 {
 			break
 		}
+	}
+	if drained {
+		s.drainedAt = s.steps
 	}
 	if s.loop == lsSelecting || s.loop == lsExited {
 		s.loopMark = s.k.Work()
@@ -136,7 +149,7 @@ func (s *uciSim) consume() int {
 				return n + 1
 			}
 			n++
-			s.lines = append(s.lines, outLine{s.steps, s.drainedAt + 1, l})
+			s.lines = append(s.lines, outLine{s.steps, s.drainBase + 1, l})
 			if strings.HasPrefix(l, "info ") && len(s.lines) < 400 {
 				s.res.Tracef("[%d] < %s", s.steps, l)
 			}
@@ -145,7 +158,6 @@ func (s *uciSim) consume() int {
 			}
 			s.quiet = 0
 		default:
-			s.drainedAt = s.steps
 			return n
 		}
 	}
